@@ -440,29 +440,55 @@ Definition init_ex (fmt : Z) (ex : list edim) (recs : list (list Z)) (vl : list 
 (* ------------------------------------------------------------------------------------ *)
 (* the hypothesis on names, the invariant                                                *)
 (* ------------------------------------------------------------------------------------ *)
-(* names a point format already uses: its standard dimensions, composed and unpacked *)
-Definition std_names (fmt : Z) : list (list Z) :=
+(* The names a point format already uses are of two sorts.
+   rec_names: the fields of the RECORD (the numpy dtype of PointFormat.dtype(): X, Y, Z, intensity, bit_fields,
+   raw_classification / classification_flags, ... — the composed fields are there under their own names).  The record's
+   field names must be pairwise different, so an extra dimension can never carry one of them: this is the hypothesis.
+   sub_names: the sub fields unpacked from the composed fields (return_number, synthetic, withheld, overlap, ...): they are
+   dimensions of the PointFormat but no fields of the record, so an extra dimension MAY be called like one of them (round 6:
+   the hypothesis no longer excludes them) — las[name] then names the standard sub field, las.points.array[name] the extra
+   dimension; add / remove / convert / the reader go by the extra dimension of that name and leave the standard one alone. *)
+Definition rec_names (fmt : Z) : list (list Z) :=
   flat_map (fun row => if fst (fst row) =? fmt then map (fun f => let '(n, _, _, _) := f in bytes_of_string n) (snd row) else [])
-           point_formats
-  ++ flat_map (fun row => if fst row =? fmt then map (fun f => let '(n, _, _) := f in bytes_of_string n) (snd row) else [])
-              sub_fields.
+           point_formats.
+Definition sub_names (fmt : Z) : list (list Z) :=
+  flat_map (fun row => if fst row =? fmt then map (fun f => let '(n, _, _) := f in bytes_of_string n) (snd row) else [])
+           sub_fields.
+(* every standard dimension name of the format, composed and unpacked *)
+Definition std_names (fmt : Z) : list (list Z) := rec_names fmt ++ sub_names fmt.
+
+(* PointFormat.dimensions: the standard dimensions in the order of the format — a composed field stands for its sub fields —
+   then the extra dimensions.  The standard part is a function of the format id alone: no add / remove may touch it. *)
+Definition subs_of (fmt : Z) (composed : string) : list (list Z) :=
+  flat_map (fun row => if fst row =? fmt
+                       then flat_map (fun f => let '(n, c, _) := f in if String.eqb c composed then [bytes_of_string n] else []) (snd row)
+                       else [])
+           sub_fields.
+Definition std_dim_names (fmt : Z) : list (list Z) :=
+  flat_map (fun row => if fst (fst row) =? fmt
+                       then flat_map (fun f => let '(n, _, _, _) := f in
+                                               match subs_of fmt n with [] => [bytes_of_string n] | l => l end) (snd row)
+                       else [])
+           point_formats.
+Definition dim_names (s : state) : list (list Z) := std_dim_names (st_fmt s) ++ extra_names (st_extras s).
 
 Definition reread_kept (keep : option Z) (ex : list edim) : list edim :=
   match keep with None => [] | Some k => firstn (Z.to_nat k) ex end.
 
-(* the names an Add introduces are new: pairwise different, not extra dimensions already, not standard names *)
+(* the names an Add introduces are new: pairwise different, not extra dimensions already, no fields of the record
+   (names of sub fields of this or another format, aliases, coordinates are names like any other) *)
 Definition op_okb (s : state) (o : op) : bool :=
   match o with
   | Add ps => nodupb (extra_names ps)
-              && forallb (fun n => negb (mem_name n (extra_names (st_extras s))) && negb (mem_name n (std_names (st_fmt s))))
+              && forallb (fun n => negb (mem_name n (extra_names (st_extras s))) && negb (mem_name n (rec_names (st_fmt s))))
                          (extra_names ps)
-  | Convert g _ =>        (* no extra dimension is called like a standard dimension of the target format *)
-      forallb (fun n => negb (mem_name n (std_names g))) (extra_names (st_extras s))
+  | Convert g _ =>        (* no extra dimension is called like a field of the target format's record *)
+      forallb (fun n => negb (mem_name n (rec_names g))) (extra_names (st_extras s))
   | Reread keep =>        (* the dimension "ExtraBytes" the reader invents is new (or every dimension stays registered), and
                              it is one of the opaque arrays the property speaks about: at most 255 bytes *)
       let kept := reread_kept keep (st_extras s) in
       (length kept =? length (st_extras s))%nat
-      || (negb (mem_name UNREG_NAME (extra_names kept)) && negb (mem_name UNREG_NAME (std_names (st_fmt s)))
+      || (negb (mem_name UNREG_NAME (extra_names kept)) && negb (mem_name UNREG_NAME (rec_names (st_fmt s)))
           && (extras_size (skipn (length kept) (st_extras s)) <=? 255))
   | _ => true
   end.
@@ -505,13 +531,13 @@ Definition vlr_inv (ex : list edim) (vl : list vlr) : Prop :=
   | _ => exists p, eb_payload ex = Ok p /\ filter is_eb_vlr vl = [eb_vlr p] /\ dec_ebs (length p) p = Ok ex
   end.
 
-(* the base invariant: record layout = format, legal parameters, distinct names that are no standard names *)
+(* the base invariant: record layout = format, legal parameters, distinct names that are no fields of the record *)
 Record InvB (s : state) : Prop := mkInvB {
   inv_fmt : exists std, std_size (st_fmt s) = Some std /\ 0 <= std
             /\ forall r, In r (st_recs s) -> rec_wf std (st_extras s) r;        (* layout; gives (I2), see rec_wf_len *)
   inv_dims : forallb edim_okb (st_extras s) = true;
   inv_names : nodupb (extra_names (st_extras s)) = true
-              /\ forallb (fun n => negb (mem_name n (std_names (st_fmt s)))) (extra_names (st_extras s)) = true
+              /\ forallb (fun n => negb (mem_name n (rec_names (st_fmt s)))) (extra_names (st_extras s)) = true
 }.
 
 (* the full invariant: base + (I3).  It holds for every in-memory LasData laspy builds, after every add / remove /
